@@ -55,9 +55,10 @@ def expected_cells(lib, max_points, path_queries):
             if p["simple"]:
                 for e, cen in zip(p["els"], q["centers"]):
                     spine = [(x / g, y / g) for x, y in cen["pts"]]
+                    ps = abs(p.get("prescale") or 1.0)      # a scaled path: widths follow if scale_width, extensions always
                     for off in rep_offsets(p["rep"]):
-                        paths.append({"tag": e["tag"], "spine": [(x + off[0], y + off[1]) for x, y in spine], "w": e["w"],
-                                      "end": e["end"], "ext": e["ext"], "scale_width": p["scale_width"], "props": p["props"]})
+                        paths.append({"tag": e["tag"], "spine": [(x + off[0], y + off[1]) for x, y in spine], "w": e["w"] * (ps if p["scale_width"] else 1.0),
+                                      "end": e["end"], "ext": [e["ext"][0] * ps, e["ext"][1] * ps], "scale_width": p["scale_width"], "props": p["props"]})
             else:
                 for op in q["result"]:
                     pts = [(x / g, y / g) for x, y in op["pts"]]
